@@ -21,9 +21,11 @@ C = dict(
     prop="C19", driver="httpapi", level="model_checking",
     model_checks=[dict(module="HttpApi", cfg="HttpApi_MC.cfg", workers=4)],
     plan_sources=[
-        dict(name="s2", module="HttpApi", cfg="HttpApi_Plan2.cfg", cap={"quick": 700}, workers=4, tiers=["quick"]),
-        dict(name="pp", module="HttpApi", cfg="HttpApi_Plan22.cfg", cap={"quick": 200}, workers=4),
-        dict(name="s3", module="HttpApi", cfg="HttpApi_Plan3.cfg", workers=8, tiers=["thorough"]),
+        dict(name="s2", module="HttpApi", cfg="HttpApi_Plan2.cfg", cap={"quick": 600}, workers=4, tiers=["quick"], params={"max_tasks": 2}),
+        dict(name="pp", module="HttpApi", cfg="HttpApi_Plan22.cfg", cap={"quick": 150}, workers=4, params={"max_tasks": 1}),
+        # <= 2 accepted requests, one probe, one more accepted request: a reject must not disturb what follows
+        dict(name="after", module="HttpApi", cfg="HttpApi_PlanAfter.cfg", cap={"quick": 200}, workers=4, params={"max_tasks": 1}),
+        dict(name="s3", module="HttpApi", cfg="HttpApi_Plan3.cfg", workers=8, tiers=["thorough"], params={"max_tasks": 2}),
     ],
     directed="plans/C19.jsonl",
     trace=("HttpApi_Trace", "HttpApi_Trace.cfg"),
